@@ -95,3 +95,15 @@ MANIFEST_TEXT['C08'] = dict(
     text='Coq theorems: (a) soundness of the extracted timing monitor: an accepted timed trace has no early timeout (counted from the write, for a client from the later of write and last reconnection), no timeout after a conclusion, at most one conclusion per request; (b) per-state laws of the client timer bookkeeping: dispatch re-arms a full timeout and drops a stale unread expiry, the clock fires only at the deadline, pause parks and resume re-arms; (c) class S0: a timed-out request leaves the queue and the next is written. The monitor is run on measured traces of the real timers (time.Timer / context.WithTimeout) of all four endpoint kinds on every run; expiry is also injected in the virtual-time histories shared with C01.',
     note=M1_NOTE + ' Timer accuracy, the Go runtime and scheduling delays are outside the model; the server dispatcher\'s stale timerC token (F8) needs a race that the lanes do not force.',
     technique='Coq-proved trace monitor run on measured real-time traces + per-state timer lemmas + differential correspondence')
+
+TRANSLATOR_TRUST = 'translator tools/cmd/extract (reflect over the real profile / feature / payload values + go/ast over the role files, RegisterValidation calls, isValid* switches and constant declarations); cross-checked dynamically by the probes of this run'
+PROPS['C18'] = Prop('C18', harness='c18', entries=['c18', 'c18s'], props_file='theories/Props/C18.v', quick_n=1, thorough_n=1,
+                    trusted=[TRANSLATOR_TRUST, 'committed role assignment coq/theories/Spec/Roles.v stands in for the OCPP documents'],
+                    assumptions=['enum validators whose function is not a plain switch over constants are listed as not understood and only probed dynamically',
+                                 'a type that exports no constant group (MessageTrigger of 1.6) has no declared set to compare with'],
+                    rule='complete enumeration: every registered enum tag x every value accepted by any enum validator of the library plus non-members (case variants, trailing blank, empty) through Validate.Var on the shared validator; every feature x every role through SendRequestAsync; counted = distinct probes',
+                    design_ref='5 C18', spec_entries=['c18s'])
+MANIFEST_TEXT['C18'] = dict(
+    text='Coq theorems over tables regenerated from the source on every run (finite sets, enumerated completely; vm_compute of boolean checkers lifted by soundness lemmas to Prop): every feature in exactly one profile per version; request / response types report the feature name; each role sends exactly its assignment and dispatches exactly what the opposite role sends, every switch arm asserting that feature\'s request type on the handler its profile check guards; every rule used on a payload field is built in or registered, and no rule name stands for two functions on the shared validator; every exported enum value is accepted and nothing else where values are exported. The same facts are probed dynamically (55k validator probes, all role x feature sends) and compared with the tables.',
+    note='Trusted: Coq kernel + vm_compute; the translator (cross-checked by the dynamic probes); the committed role assignment. The 1.6 synchronous SendRequest has no allow-list by design of the library (reported as a difference, not decided).',
+    technique='translator-regenerated tables + Coq proof by reflection (checker soundness lemmas + vm_compute) + exhaustive dynamic probes')
